@@ -748,6 +748,16 @@ static void transfer_case(int grid)
     if (bound_client) vh_count("accept_from_bound_client", 1);
     int S = reverse ? A : C, R = reverse ? C : A;
     if (mode == 2) op_nbio(R, 1);
+    /* a copy of a socket object is the same connection through a descriptor of its own: closing or deleting the original must not disturb it */
+    if (!grid && vh_coin(20)) {
+        int sender_side = vh_coin(60), orig = sender_side ? S : R;
+        int D = op_dup(orig);
+        if (D >= 0 && objs[D].s->fd >= 0) {
+            if (vh_coin(50)) op_close(orig); else op_del(orig);
+            if (sender_side) S = D; else R = D;
+            vh_count("transfers_over_a_copy_after_the_original_was_closed", 1);
+        }
+    }
 
     /* split the total over the sends */
     size_t seglen[MAXSCHED + 1], left = total - need_w;
@@ -940,7 +950,8 @@ static void lifecycle_case(void)
             if (inj.consumed) vh_count("open_with_injected_failure", 1);
         } else if (r < 40) { i = pick_flag(SPIF_SOCKET_FLAGS_LISTEN, "LD"); opc = 3; st = state_class(i);
             if (free_slot() < 0) continue;
-            if (injecting) { inj.accept_errno = ACCEPT_ERRS[vh_below(5)]; inj.accept_times = inj.accept_errno == EAGAIN ? (int) vh_range(1, 3) : 1; argc_ = inj.accept_errno; }
+            if (injecting && vh_coin(25)) { inj.dup_errno = EMFILE; argc_ = 1000 + EMFILE; vh_count("accept_with_dup_failing_inside", 1); }      /* the descriptor table fills up between accept() and the copy of the listener */
+            else if (injecting) { inj.accept_errno = ACCEPT_ERRS[vh_below(5)]; inj.accept_times = inj.accept_errno == EAGAIN ? (int) vh_range(1, 3) : 1; argc_ = inj.accept_errno; }
             outcome = op_accept(i) >= 0;
             if (outcome) vh_count("lifecycle_accept_ok", 1);
             if (inj.consumed) vh_count("accept_with_injected_failure", 1);
